@@ -2,7 +2,9 @@
    [pieces t]: the leaves a program plays, in order, repetitions unrolled (Model.v); [duration]: Loop.duration.
    [tree_okb]: counts >= 0 and inner nodes carry no waveform. *)
 From Coq Require Import ZArith QArith Bool List.
-Require Import QV.C06.Model QV.C06.Spec QV.C06.Proofs_props QV.C06.Gen_sfg QV.C06.Proofs_sfg QV.C06.Model_idx QV.C06.Proofs_idx.
+Require Import QV.C06.Model QV.C06.Spec QV.C06.Proofs_props QV.C06.Gen_sfg QV.C06.Proofs_sfg
+  QV.C06.Model_vol QV.C06.Proofs_vol QV.C06.Proofs_vol_term QV.C06.Model_idx QV.C06.Proofs_idx.
+(* [erase] unqualified is Model_idx.erase (forget the recorded index); Model_vol.erase forgets which counts are volatile *)
 Import ListNotations.
 Open Scope Z_scope.
 
@@ -175,3 +177,108 @@ Print Assumptions C06_idx_reverse_children_ok.
 Theorem C06_idx_representation : forall t, erase (index_tree t) = t /\ idx_ok (index_tree t) = true.
 Proof. exact index_tree_ok. Qed.
 Print Assumptions C06_idx_representation.
+
+(* ---- volatile repetition counts (Model_vol.v).  [vtree]: the count of a node is [Fixed n] or [Volatile n tag]
+   (VolatileRepetitionCount with current value n).  [Model_vol.erase]: what the program plays now; [instv val]: what it
+   plays when every count is read through [val] — [multiplicative val] holds for the current values ([rv]) and for
+   every re-evaluation of the volatile parameters ([rv_env env]).  unroll / unroll_children / split_one_child /
+   flatten_and_balance freeze the current value (VolatileModificationWarning): they preserve the pulse at the current
+   values; encapsulate / _merge_single_child / cleanup preserve it under every valuation. *)
+
+Theorem C06_vol_unroll_preserves : forall p i p', tree_okb (Model_vol.erase p) = true -> vunroll_child p i = Ok p' ->
+  pieces (Model_vol.erase p') = pieces (Model_vol.erase p) /\ (duration (Model_vol.erase p') == duration (Model_vol.erase p))%Q.
+Proof. exact vunroll_preserves. Qed.
+Print Assumptions C06_vol_unroll_preserves.
+
+Theorem C06_vol_unroll_children_preserves : forall t t', tree_okb (Model_vol.erase t) = true -> vunroll_children_op t = Ok t' ->
+  (pieces (Model_vol.erase t') = pieces (Model_vol.erase t) /\ (duration (Model_vol.erase t') == duration (Model_vol.erase t))%Q)
+  /\ v_rep t' = Fixed 1.
+Proof. exact vunroll_children_preserves. Qed.
+Print Assumptions C06_vol_unroll_children_preserves.
+
+Theorem C06_vol_split_preserves : forall t idx t', tree_okb (Model_vol.erase t) = true -> vsplit_one_child t idx = Ok t' ->
+  pieces (Model_vol.erase t') = pieces (Model_vol.erase t) /\ (duration (Model_vol.erase t') == duration (Model_vol.erase t))%Q.
+Proof. exact vsplit_preserves. Qed.
+Print Assumptions C06_vol_split_preserves.
+
+(* the search of split_one_child: the rightmost fixed child with count > 1 if there is one, else the rightmost volatile one *)
+Theorem C06_vol_split_search : forall t k, vsplit_index t None = Ok k ->
+  exists c, nth_error (v_ch t) k = Some c /\ 1 < rv (v_rep c) /\
+    (is_vol (v_rep c) = false -> forall j c', (k < j)%nat -> nth_error (v_ch t) j = Some c' -> 1 < rv (v_rep c') ->
+                                   is_vol (v_rep c') = true) /\
+    (is_vol (v_rep c) = true -> (forall c', In c' (v_ch t) -> 1 < rv (v_rep c') -> is_vol (v_rep c') = true) /\
+                                (forall j c', (k < j)%nat -> nth_error (v_ch t) j = Some c' -> rv (v_rep c') <= 1)).
+Proof. exact vsplit_search_spec. Qed.
+Print Assumptions C06_vol_split_search.
+
+Theorem C06_vol_split_freezes : forall t idx k t', vsplit_index t idx = Ok k -> vsplit_one_child t idx = Ok t' ->
+  exists a b, nth_error (v_ch t') k = Some a /\ nth_error (v_ch t') (S k) = Some b /\
+              is_vol (v_rep a) = false /\ is_vol (v_rep b) = false.
+Proof. exact vsplit_freezes. Qed.
+Print Assumptions C06_vol_split_freezes.
+
+(* ... and that is why it warns: the split program follows the volatile parameter no longer *)
+Theorem C06_vol_split_not_all_env : exists t', vsplit_one_child ex_vol2 None = Ok t' /\ vsplit_warns ex_vol2 None = true /\
+  pieces (inst ex_env3 t') = pieces (inst ex_env3 ex_vol2) /\ pieces (inst ex_env5 t') <> pieces (inst ex_env5 ex_vol2).
+Proof. exact vsplit_not_all_env. Qed.
+Print Assumptions C06_vol_split_not_all_env.
+
+Theorem C06_vol_mergeable_sound : forall val t, multiplicative val -> vmergeable t = true -> mergeable (instv val t) = true.
+Proof. exact vmergeable_instv. Qed.
+Print Assumptions C06_vol_mergeable_sound.
+
+Theorem C06_vol_merge_preserves_all : forall val t t', multiplicative val -> tree_okb (instv val t) = true ->
+  vmerge_single_child t = Ok t' ->
+  pieces (instv val t') = pieces (instv val t) /\ (duration (instv val t') == duration (instv val t))%Q.
+Proof. exact vmerge_preserves_all. Qed.
+Print Assumptions C06_vol_merge_preserves_all.
+
+Theorem C06_vol_encapsulate_preserves_all : forall val t, multiplicative val -> tree_okb (instv val t) = true ->
+  pieces (instv val (vencapsulate t)) = pieces (instv val t) /\ (duration (instv val (vencapsulate t)) == duration (instv val t))%Q.
+Proof. exact vencapsulate_preserves_all. Qed.
+Print Assumptions C06_vol_encapsulate_preserves_all.
+
+Theorem C06_vol_cleanup_preserves_all : forall val rm mg t t', multiplicative val -> tree_okb (instv val t) = true ->
+  vcleanup rm mg t = Ok t' ->
+  pieces (instv val t') = pieces (instv val t) /\ (duration (instv val t') == duration (instv val t))%Q.
+Proof. exact vcleanup_preserves_all. Qed.
+Print Assumptions C06_vol_cleanup_preserves_all.
+
+Theorem C06_vol_valuations : multiplicative rv /\ (forall env, multiplicative (rv_env env)) /\
+  (forall t, Model_vol.erase t = instv rv t) /\ (forall env t, inst env t = instv (rv_env env) t).
+Proof. exact (conj multiplicative_rv (conj multiplicative_rv_env (conj erase_instv inst_instv))). Qed.
+Print Assumptions C06_vol_valuations.
+
+Theorem C06_vol_cleanup_post : forall rm mg t t', vcleanup rm mg t = Ok t' ->
+  (rm = true -> no_empty_below (Model_vol.erase t') = true) /\ (mg = true -> v_none_mergeable t' = true).
+Proof. intros rm mg t t' H; split; intros ->; [exact (vcleanup_post _ _ _ H) | exact (vcleanup_none_mergeable _ _ _ H)]. Qed.
+Print Assumptions C06_vol_cleanup_post.
+
+Theorem C06_vol_flatten_preserves_post : forall fuel d t t', tree_okb (Model_vol.erase t) = true ->
+  vflatten_and_balance fuel d t = Ok t' ->
+  (pieces (Model_vol.erase t') = pieces (Model_vol.erase t) /\ (duration (Model_vol.erase t') == duration (Model_vol.erase t))%Q)
+  /\ (1 <= d -> v_ch t' <> [] -> vdepth t' = d /\ vbalanced t' = true)
+  /\ (d <= 0 -> forallb v_is_leaf (v_ch t') = true).
+Proof. exact vflatten_preserves. Qed.
+Print Assumptions C06_vol_flatten_preserves_post.
+
+Theorem C06_vol_flatten_terminates : forall d t, exists n, forall k, vflatten_and_balance (n + k) d t <> Err OutOfFuel.
+Proof. exact vflatten_terminates. Qed.
+Print Assumptions C06_vol_flatten_terminates.
+
+Theorem C06_vol_flatten_total : forall d t, exists n, forall k,
+  (exists t', vflatten_and_balance (n + k) d t = Ok t') \/ vflatten_and_balance (n + k) d t = Err EAssert.
+Proof. exact vflatten_total. Qed.
+Print Assumptions C06_vol_flatten_total.
+
+(* the loop that also reports the warning (used by the correspondence) is the same loop *)
+Theorem C06_vol_flatten_w_fst : forall f d t, rmap fst (vflatten_and_balance_w f d t) = vflatten_and_balance f d t.
+Proof. exact vflatten_w_fst. Qed.
+Print Assumptions C06_vol_flatten_w_fst.
+
+(* without volatile counts the volatile-aware rewrites are the plain ones *)
+Theorem C06_vol_conservative : forall f d t idx, any_volatile t = false ->
+  rmap Model_vol.erase (vflatten_and_balance f d t) = flatten_and_balance f d (Model_vol.erase t)
+  /\ rmap Model_vol.erase (vsplit_one_child t idx) = split_one_child (Model_vol.erase t) idx.
+Proof. intros f d t idx H; split; [exact (vflatten_conservative f d t H) | exact (vsplit_conservative t idx H)]. Qed.
+Print Assumptions C06_vol_conservative.
